@@ -1,6 +1,29 @@
 HOOK_COMMITS = ["6c92ace"]
 NOT_APPLICABLE = {}
 CHECKS = {
+ "C09": {
+  "text": "Coq: declarative predicates over provider-call histories (Causal, Once, Exact in Async/History.v) with executable checkers proven equivalent for every provider and every history (causalb_spec, onceb_spec, exactb_spec). The real solver's call history (no hints; 1-3 solves per solver; sync and yielding runtimes) is judged by the extracted checkers; exactness is checked whenever the verified greedy oracle applies.",
+  "technique": "Coq-verified history checkers (checker <-> declarative trace predicate) applied to provider-call histories of the implementation",
+  "note": "The theorem is about the trace predicate and its checker; the causal structure is not derived from a model of the encoder.",
+ },
+ "C10": {
+  "text": "Every case is solved under completion orders chosen by a schedule-controlled executor (FIFO, LIFO, random, bounded depth-first enumeration of alternatives at every choice point) with deadlock detection that needs no timeout; per schedule: termination, verdict equal to the synchronous one, solution valid per the verified oracle o_valid, no repeated provider request per the verified history checker onceb (C10_*).",
+  "technique": "schedule enumeration on the real solver judged by Coq-verified validity oracle and history checker",
+  "note": "Theorems are the oracles' correctness (o_valid_spec, onceb_spec, o_solvable_spec); schedule-independence of the encoder itself is explored, not proved.",
+ },
+ "C11": {
+  "text": "Coq: Eager predicate (at every quiescent point every candidates request implied by obtained dependency information has been issued) with checker proven equivalent (eagerb_spec). The schedule-controlled executor logs every quiescent point of the real solver (Pending without self-wake) on fan-out universes with up to 16 root requirements, unions and nested fan-outs; the extracted checker judges the histories.",
+  "technique": "Coq-verified history checker applied to quiescent-point logs of the implementation under controlled schedules",
+  "note": "Partial by nature: nothing about wall-clock overlap inside the provider; first solves on fresh solvers only.",
+ },
+ "C12": {
+  "text": "Fault enumeration over every poll index of should_cancel_with_value (sync, gated FIFO, gated LIFO; transient firing): the outcome must be Cancelled with exactly the value, and the history must satisfy CancelQuiet (no request starts after the firing poll), judged by the checker proven equivalent to the predicate (cancel_quietb_spec).",
+  "technique": "fault enumeration over all cancellation points on the real solver + Coq-verified history checker",
+ },
+ "C13": {
+  "text": "Sequences of 2-4 solves on one solver (same/varied problems, after Unsolvable, after cancellation at random and at every early poll; sync, yielding and gated runtimes): each solve terminates (deadlock detection without timeouts), gives the verdict of the verified reference procedure, a solution valid per o_valid, and the whole history satisfies Once (no re-request of obtained metadata; abandoned requests may be re-issued) per the verified checker (C13_*).",
+  "technique": "history exploration on the real solver judged by Coq-verified reference, validity oracle and history checker",
+ },
  "C14": {
   "text": "Coq: validity with exactly the documented exemption at trace level (C14_valid = C01_trace_sound), never-error (C14_never_error: a solvable hard problem is never acceptably refuted, soft phases included), and a verified acceptance oracle (soft_expect_sound / soft_step_ok_spec). Soft-requirement lists are run on the real solver; accepted-by-oracle soft solvables must be in the solution, the hard verdict must not change, the solution must be valid.",
   "technique": "Coq trace-inclusion + refutation-certificate theorems, and Coq-verified soft-acceptance oracle applied to implementation outputs",
